@@ -261,6 +261,8 @@ class HTTP(BaseComponent):
                     )
                 req.server = self._server
                 res = wrappers.Response(req, encoding=self._encoding)
+                # never label the answer with a version we do not speak
+                res.protocol = 'HTTP/{:d}.{:d}'.format(*min(req.protocol, self.protocol))
                 del self._buffers[sock]
                 return self.fire(httperror(req, res, 400))
             return None
@@ -293,7 +295,9 @@ class HTTP(BaseComponent):
             sp = self.protocol
 
             if rp[0] != sp[0]:
-                # the major HTTP version differs
+                # the major HTTP version differs: answer in our own version,
+                # never in one taken from the request line
+                res.protocol = 'HTTP/{:d}.{:d}'.format(*sp)
                 return self.fire(httperror(req, res, 505))
 
             res.protocol = 'HTTP/{:d}.{:d}'.format(*min(rp, sp))
